@@ -72,9 +72,9 @@ Definition controlled_by (g : gate) (qs : list nat) : option gate :=
   end.
 
 (* the acceptance test of execute_circuit *)
-Definition admitted (g : gate) : bool :=
+Definition passes_acceptance (g : gate) : bool :=
   clifford g || match g_cls g with cM | cPauliNoise => true | _ => false end.
-Definition accepted (c : list gate) : bool := forallb admitted c.
+Definition accepted (c : list gate) : bool := forallb passes_acceptance c.
 
 (* engine rules with angle dispatch *)
 Definition m_RX (theta : float) : loc1 := m_RX_branch (rot_branch theta).
